@@ -434,7 +434,7 @@ class HistoryRun:
             cyclic = isinstance(node2, Tree) and id(target.children) in mutable_ids(node2, set())
             if isinstance(node2, (Tree, Token)) and unfolded_size(node2, 60) <= 60 and not cyclic:
                 self.stats["sub"] += 1
-                return node2, f"(SSub {h2} {nat_list(path2)})", ["sub", self.handles[h2][3], path2], (h2, path2)
+                return node2, f"(SSub {h2}%N {nat_list(path2)})", ["sub", self.handles[h2][3], path2], (h2, path2)
         if r < 0.35 or r >= 0.6:
             ty, v = self.rng.choice(["CONDITION_KEY", "JUNK", "MODAL_MARK"]), self.rng.choice(["1", "77", "Muss", "x y", ""])
             self.stats["junk_tok"] += 1
@@ -448,7 +448,7 @@ class HistoryRun:
         self.stats[kind] += 1
         self.stats["max_depth"] = max(self.stats["max_depth"], len(path))
         ged = {"replace": f"EReplace {idx} {gsrc}", "remove": f"ERemove {idx}", "append": f"EAppend {gsrc}"}[kind]
-        self.gops.append(f"Edit {h} {nat_list(path)} ({ged})")
+        self.gops.append(f"Edit {h}%N {nat_list(path)} ({ged})")
         self.jhist.append(["edit", self.handles[h][3], list(path), kind, idx, jsrc])
         self.edited.add((self.handles[h][1], self.handles[h][2]))
 
@@ -491,7 +491,7 @@ class HistoryRun:
         except (TooBig, RecursionError):
             return
         self.stats["peek"] += 1
-        self.gops.append(f"Peek {h}")
+        self.gops.append(f"Peek {h}%N")
         self.jhist.append(["peek", self.handles[h][3]])
         self.gobs.append(f"OPeek (Ok {self.pr.tree(c)})")
 
